@@ -2,121 +2,253 @@ package main
 
 import (
 	"bytes"
+	"encoding/hex"
 	"fmt"
+	"math"
+	"reflect"
 	"runtime"
+	"sort"
 	"strconv"
+	"strings"
 	"time"
 
 	"github.com/Chocapikk/pgread/pgdump"
 )
 
 // every []byte / string entry point; p is a type oid / small integer parameter
-var c10Entries = map[string]func(b []byte, p int){
-	"ParsePage":      func(b []byte, p int) { pgdump.ParsePage(b) },
-	"ParseHeapTuple": func(b []byte, p int) { pgdump.ParseHeapTuple(b) },
-	"ReadTuples":     func(b []byte, p int) { pgdump.ReadTuples(b, p%2 == 0) },
-	"ParseFile":      func(b []byte, p int) { pgdump.ParseFile(b) },
-	"ReadRows": func(b []byte, p int) {
-		pgdump.ReadRows(b, []pgdump.Column{{Name: "a", TypID: pgdump.OidInt4, Len: 4, Align: 'i'}, {Name: "b", TypID: p, Len: -1, Align: 'i'}, {Name: "c", TypID: pgdump.OidName, Len: 64, Align: 'c'}}, p%2 == 0)
+var c10Entries = map[string]func(b []byte, p int) interface{}{
+	"ParsePage":      func(b []byte, p int) interface{} { return c10r(pgdump.ParsePage(b)) },
+	"ParseHeapTuple": func(b []byte, p int) interface{} { return c10r(pgdump.ParseHeapTuple(b)) },
+	"ReadTuples":     func(b []byte, p int) interface{} { return c10r(pgdump.ReadTuples(b, p%2 == 0)) },
+	"ParseFile":      func(b []byte, p int) interface{} { return c10r(pgdump.ParseFile(b)) },
+	"ReadRows": func(b []byte, p int) interface{} {
+		return c10r(pgdump.ReadRows(b, []pgdump.Column{{Name: "a", TypID: pgdump.OidInt4, Len: 4, Align: 'i'}, {Name: "b", TypID: p, Len: -1, Align: 'i'}, {Name: "c", TypID: pgdump.OidName, Len: 64, Align: 'c'}}, p%2 == 0))
 	},
-	"ReadVarlena": func(b []byte, p int) { pgdump.ReadVarlena(b) },
-	"DecodeTuple": func(b []byte, p int) {
+	"ReadVarlena": func(b []byte, p int) interface{} { return c10r(pgdump.ReadVarlena(b)) },
+	"DecodeTuple": func(b []byte, p int) interface{} {
 		bm := b
 		if len(bm) > 3 {
-			bm = bm[:3]
+			bm = bm[:3:3]
 		}
-		pgdump.DecodeTuple(&pgdump.HeapTupleData{Header: &pgdump.HeapTupleHeader{Natts: p % 7, HasNull: p%2 == 0}, Bitmap: bm, Data: b},
-			[]pgdump.Column{{Name: "a", TypID: p, Len: -1, Align: 'i'}, {Name: "b", TypID: p, Len: p % 40, Align: byte(p)}, {Name: "c", TypID: pgdump.OidText, Len: -2, Num: 9}, {Name: "d", TypID: p, Len: -1, Align: 'd'}})
+		return c10r(pgdump.DecodeTuple(&pgdump.HeapTupleData{Header: &pgdump.HeapTupleHeader{Natts: p % 7, HasNull: p%2 == 0}, Bitmap: bm, Data: b},
+			[]pgdump.Column{{Name: "a", TypID: p, Len: -1, Align: 'i'}, {Name: "b", TypID: p, Len: p % 40, Align: byte(p)}, {Name: "c", TypID: pgdump.OidText, Len: -2, Num: 9}, {Name: "d", TypID: p, Len: -1, Align: 'd'}}))
 	},
-	"ParsePGDatabase":  func(b []byte, p int) { pgdump.ParsePGDatabase(b) },
-	"ParsePGClass":     func(b []byte, p int) { pgdump.ParsePGClass(b) },
-	"ParsePGAttribute": func(b []byte, p int) { pgdump.ParsePGAttribute(b, []int{0, 12, 15, 16}[p%4]) },
-	"ParsePGAuthID":    func(b []byte, p int) { pgdump.ParsePGAuthID(b) },
-	"ParseTOASTPointer": func(b []byte, p int) { pgdump.ParseTOASTPointer(b) },
-	"IsTOASTPointer":    func(b []byte, p int) { pgdump.IsTOASTPointer(b) },
-	"ReadTOASTTable":    func(b []byte, p int) { pgdump.ReadTOASTTable(b) },
-	"GetTOASTVerboseInfo": func(b []byte, p int) { pgdump.GetTOASTVerboseInfo(uint32(p), b) },
-	"ReassembleTOAST": func(b []byte, p int) {
+	"ParsePGDatabase":     func(b []byte, p int) interface{} { return c10r(pgdump.ParsePGDatabase(b)) },
+	"ParsePGClass":        func(b []byte, p int) interface{} { return c10r(pgdump.ParsePGClass(b)) },
+	"ParsePGAttribute":    func(b []byte, p int) interface{} { return c10r(pgdump.ParsePGAttribute(b, []int{0, 12, 15, 16}[p%4])) },
+	"ParsePGAuthID":       func(b []byte, p int) interface{} { return c10r(pgdump.ParsePGAuthID(b)) },
+	"ParseTOASTPointer":   func(b []byte, p int) interface{} { return c10r(pgdump.ParseTOASTPointer(b)) },
+	"IsTOASTPointer":      func(b []byte, p int) interface{} { return c10r(pgdump.IsTOASTPointer(b)) },
+	"ReadTOASTTable":      func(b []byte, p int) interface{} { return c10r(pgdump.ReadTOASTTable(b)) },
+	"GetTOASTVerboseInfo": func(b []byte, p int) interface{} { return c10r(pgdump.GetTOASTVerboseInfo(uint32(p), b)) },
+	"ReassembleTOAST": func(b []byte, p int) interface{} {
 		chunks := pgdump.ReadTOASTTable(b)
 		chunks = append(chunks, pgdump.TOASTChunk{ChunkID: 7, ChunkSeq: 0, Data: b})
 		ptr := pgdump.ParseTOASTPointer(b)
-		pgdump.ReassembleTOAST(chunks, 7, ptr)
+		out := []interface{}{pgdump.ReassembleTOAST(chunks, 7, ptr)}
 		if ptr != nil {
-			pgdump.ReassembleTOAST(chunks, ptr.ValueID, ptr)
+			out = append(out, pgdump.ReassembleTOAST(chunks, ptr.ValueID, ptr))
 		}
 		for _, m := range []int{0, 1} {
-			pgdump.ReassembleTOAST(chunks, 7, &pgdump.TOASTPointer{RawSize: 0xFFFFFFFF, ExtSize: uint32(len(b)), ValueID: 7, IsCompressed: true, CompressionMethod: m})
-			pgdump.ReassembleTOAST(chunks, 7, &pgdump.TOASTPointer{RawSize: uint32(p), ExtSize: uint32(len(b)), ValueID: 7, IsCompressed: true, CompressionMethod: m})
+			out = append(out, pgdump.ReassembleTOAST(chunks, 7, &pgdump.TOASTPointer{RawSize: 0xFFFFFFFF, ExtSize: uint32(len(b)), ValueID: 7, IsCompressed: true, CompressionMethod: m}))
+			out = append(out, pgdump.ReassembleTOAST(chunks, 7, &pgdump.TOASTPointer{RawSize: uint32(p), ExtSize: uint32(len(b)), ValueID: 7, IsCompressed: true, CompressionMethod: m}))
 		}
+		return out
 	},
-	"TOASTReader": func(b []byte, p int) {
+	"TOASTReader": func(b []byte, p int) interface{} {
 		r := pgdump.NewTOASTReader()
 		r.LoadTOASTTable(uint32(p), b)
-		r.ReadValue(b)
+		return c10r(r.ReadValue(b))
 	},
-	"decompressPGLZ": func(b []byte, p int) {
-		pgdump.VerifDecompressPGLZ(b, p)
-		pgdump.VerifDecompressPGLZ(b, 1<<30)
-		pgdump.VerifDecompressPGLZ(b, -1)
+	"decompressPGLZ": func(b []byte, p int) interface{} {
+		return []interface{}{c10r(pgdump.VerifDecompressPGLZ(b, p)), c10r(pgdump.VerifDecompressPGLZ(b, 1<<30)), c10r(pgdump.VerifDecompressPGLZ(b, -1))}
 	},
-	"decompressLZ4": func(b []byte, p int) {
-		pgdump.VerifDecompressLZ4(b, p)
-		pgdump.VerifDecompressLZ4(b, 1<<30)
-		pgdump.VerifDecompressLZ4(b, -1)
+	"decompressLZ4": func(b []byte, p int) interface{} {
+		return []interface{}{c10r(pgdump.VerifDecompressLZ4(b, p)), c10r(pgdump.VerifDecompressLZ4(b, 1<<30)), c10r(pgdump.VerifDecompressLZ4(b, -1))}
 	},
-	"DecodeType": func(b []byte, p int) {
-		pgdump.DecodeType(b, p)
+	"DecodeType": func(b []byte, p int) interface{} {
+		out := []interface{}{pgdump.DecodeType(b, p)}
 		for _, oid := range c10Oids {
-			pgdump.DecodeType(b, oid)
+			out = append(out, pgdump.DecodeType(b, oid))
 		}
+		return out
 	},
-	"ParseJSONB":        func(b []byte, p int) { pgdump.ParseJSONB(b) },
-	"DecodeNumeric":     func(b []byte, p int) { pgdump.DecodeNumeric(b) },
-	"ParseControlFile":  func(b []byte, p int) { pgdump.ParseControlFile(b) },
-	"ParseWALFile":      func(b []byte, p int) { pgdump.ParseWALFile(b) },
-	"ParseIndexFile":    func(b []byte, p int) { pgdump.ParseIndexFile(b) },
-	"ParseSequenceFile": func(b []byte, p int) { pgdump.ParseSequenceFile(b) },
-	"IsSequenceFile":    func(b []byte, p int) { pgdump.IsSequenceFile(b) },
-	"ParseRelMapFile":   func(b []byte, p int) { pgdump.ParseRelMapFile(b) },
-	"VerifyPageChecksum":  func(b []byte, p int) { pgdump.VerifyPageChecksum(b, uint32(p)) },
-	"VerifyFileChecksums": func(b []byte, p int) { pgdump.VerifyFileChecksums(b, uint32(p)) },
-	"ParseBlockInfo":      func(b []byte, p int) { pgdump.ParseBlockInfo(b, uint32(p)) },
-	"FormatBinaryDump":    func(b []byte, p int) { pgdump.FormatBinaryDump(b) },
-	"ParseBlockRange":     func(b []byte, p int) { pgdump.ParseBlockRange(string(b)) },
-	"quoteIdent":          func(b []byte, p int) { pgdump.VerifQuoteIdent(string(b)) },
-	"quoteLiteral":        func(b []byte, p int) { pgdump.VerifQuoteLiteral(string(b)) },
-	"formatSQLValue": func(b []byte, p int) {
+	"ParseJSONB":          func(b []byte, p int) interface{} { return c10r(pgdump.ParseJSONB(b)) },
+	"DecodeNumeric":       func(b []byte, p int) interface{} { return c10r(pgdump.DecodeNumeric(b)) },
+	"ParseControlFile":    func(b []byte, p int) interface{} { return c10r(pgdump.ParseControlFile(b)) },
+	"ParseWALFile":        func(b []byte, p int) interface{} { return c10r(pgdump.ParseWALFile(b)) },
+	"ParseIndexFile":      func(b []byte, p int) interface{} { return c10r(pgdump.ParseIndexFile(b)) },
+	"ParseSequenceFile":   func(b []byte, p int) interface{} { return c10r(pgdump.ParseSequenceFile(b)) },
+	"IsSequenceFile":      func(b []byte, p int) interface{} { return c10r(pgdump.IsSequenceFile(b)) },
+	"ParseRelMapFile":     func(b []byte, p int) interface{} { return c10r(pgdump.ParseRelMapFile(b)) },
+	"VerifyPageChecksum":  func(b []byte, p int) interface{} { return c10r(pgdump.VerifyPageChecksum(b, uint32(p))) },
+	"VerifyFileChecksums": func(b []byte, p int) interface{} { return c10r(pgdump.VerifyFileChecksums(b, uint32(p))) },
+	"ParseBlockInfo":      func(b []byte, p int) interface{} { return c10r(pgdump.ParseBlockInfo(b, uint32(p))) },
+	"FormatBinaryDump":    func(b []byte, p int) interface{} { return c10r(pgdump.FormatBinaryDump(b)) },
+	"ParseBlockRange":     func(b []byte, p int) interface{} { return c10r(pgdump.ParseBlockRange(string(b))) },
+	"quoteIdent":          func(b []byte, p int) interface{} { return c10r(pgdump.VerifQuoteIdent(string(b))) },
+	"quoteLiteral":        func(b []byte, p int) interface{} { return c10r(pgdump.VerifQuoteLiteral(string(b))) },
+	"formatSQLValue": func(b []byte, p int) interface{} {
+		var out []interface{}
 		for _, v := range c10Values(b) {
-			pgdump.VerifFormatSQLValue(v, p)
+			out = append(out, pgdump.VerifFormatSQLValue(v, p))
 		}
+		return out
 	},
-	"mapToJSON": func(b []byte, p int) {
-		pgdump.VerifMapToJSON(map[string]interface{}{string(b): c10Values(b), "k": string(b)})
+	"mapToJSON": func(b []byte, p int) interface{} {
+		return c10r(pgdump.VerifMapToJSON(map[string]interface{}{string(b): c10Values(b), "k": string(b)}))
 	},
-	"formatCSVValue": func(b []byte, p int) {
+	"formatCSVValue": func(b []byte, p int) interface{} {
+		var out []interface{}
 		for _, v := range c10Values(b) {
-			pgdump.VerifFormatCSVValue(v)
+			out = append(out, pgdump.VerifFormatCSVValue(v))
 		}
+		return out
 	},
-	"SearchInDump": func(b []byte, p int) {
+	"SearchInDump": func(b []byte, p int) interface{} {
 		d := c10Dump(b)
-		pgdump.SearchInDump(d, &pgdump.SearchOptions{Pattern: string(b), MaxResults: p % 3, IncludeRow: p%2 == 0, CaseSensitive: p%5 == 0})
+		return c10r(pgdump.SearchInDump(d, &pgdump.SearchOptions{Pattern: string(b), MaxResults: p % 3, IncludeRow: p%2 == 0, CaseSensitive: p%5 == 0}))
 	},
-	"ToSQLCSV": func(b []byte, p int) {
+	"ToSQLCSV": func(b []byte, p int) interface{} {
 		d := c10Dump(b)
 		var w bytes.Buffer
 		d.ToSQL(&w)
 		d.ToCSV(&w)
+		return len(w.Bytes()) // the SQL text carries a generation timestamp; its length does not
 	},
-	"ReadDeletedRows": func(b []byte, p int) {
-		pgdump.ReadDeletedRows(b, []pgdump.Column{{Name: "a", TypID: p, Len: -1, Align: 'i'}})
+	"ReadDeletedRows": func(b []byte, p int) interface{} {
+		return c10r(pgdump.ReadDeletedRows(b, []pgdump.Column{{Name: "a", TypID: p, Len: -1, Align: 'i'}}))
 	},
-	"ReadRowsWithDeleted": func(b []byte, p int) {
-		pgdump.ReadRowsWithDeleted(b, []pgdump.Column{{Name: "a", TypID: pgdump.OidInt4, Len: 4, Align: 'i'}, {Name: "b", TypID: p, Len: -1, Align: 'i'}})
+	"ReadRowsWithDeleted": func(b []byte, p int) interface{} {
+		return c10r(pgdump.ReadRowsWithDeleted(b, []pgdump.Column{{Name: "a", TypID: pgdump.OidInt4, Len: 4, Align: 'i'}, {Name: "b", TypID: p, Len: -1, Align: 'i'}}))
 	},
-	"parseBlockRefs":  func(b []byte, p int) { pgdump.VerifParseBlockRefs(b) },
-	"parseWALPage":    func(b []byte, p int) { pgdump.VerifParseWALPage(b, uint64(p), p%3) },
-	"detectIndexType": func(b []byte, p int) { pgdump.VerifDetectIndexType(b) },
+	"parseBlockRefs":  func(b []byte, p int) interface{} { return c10r(pgdump.VerifParseBlockRefs(b)) },
+	"parseWALPage":    func(b []byte, p int) interface{} { return c10r(pgdump.VerifParseWALPage(b, uint64(p), p%3)) },
+	"detectIndexType": func(b []byte, p int) interface{} { return c10r(pgdump.VerifDetectIndexType(b)) },
+	// unexported helpers that slice on their own: index special-space and metapage parsers (called with the raw
+	// special space / page), WAL record and page headers, sequence tuple, JSONB helpers, scalar sub-decoders
+	"parseSpecial": func(b []byte, p int) interface{} {
+		var out []interface{}
+		for _, f := range []func(*pgdump.IndexPageInfo, []byte){pgdump.VerifParseBTreePageSpecial, pgdump.VerifParseHashPageSpecial,
+			pgdump.VerifParseGiSTPageSpecial, pgdump.VerifParseGINPageSpecial, pgdump.VerifParseSPGiSTPageSpecial, pgdump.VerifParseBRINPageSpecial} {
+			info := pgdump.IndexPageInfo{}
+			f(&info, b)
+			out = append(out, info)
+		}
+		return out
+	},
+	"parseMeta": func(b []byte, p int) interface{} {
+		return []interface{}{pgdump.VerifParseBTreeMeta(b), pgdump.VerifParseHashMeta(b), pgdump.VerifParseGINMeta(b)}
+	},
+	"parseIndexPage": func(b []byte, p int) interface{} {
+		var out []interface{}
+		for t := -1; t <= 7; t++ {
+			out = append(out, pgdump.VerifParseIndexPage(b, uint32(p), pgdump.IndexType(t)))
+		}
+		return out
+	},
+	"parseXLogRecord":    func(b []byte, p int) interface{} { return c10r(pgdump.VerifParseXLogRecord(b, uint64(p))) },
+	"parseSequenceTuple": func(b []byte, p int) interface{} { return c10r(pgdump.VerifParseSequenceTuple(b)) },
+}
+
+// c10r collects the (possibly several) results of a call
+func c10r(vals ...interface{}) interface{} { return vals }
+
+// deepStr renders any result structurally (pointers followed, map keys sorted, floats by bits, errors by text),
+// so that two runs can be compared for equality
+func deepStr(v interface{}) string {
+	var sb strings.Builder
+	deepWrite(&sb, reflect.ValueOf(v), 0)
+	return sb.String()
+}
+
+func deepWrite(sb *strings.Builder, v reflect.Value, depth int) {
+	if !v.IsValid() {
+		sb.WriteString("nil")
+		return
+	}
+	if depth > 40 {
+		sb.WriteString("<deep>")
+		return
+	}
+	if v.CanInterface() {
+		switch x := v.Interface().(type) {
+		case error:
+			if x == nil {
+				sb.WriteString("nil")
+			} else {
+				sb.WriteString("err(" + x.Error() + ")")
+			}
+			return
+		case time.Time:
+			fmt.Fprintf(sb, "time(%d)", x.UnixNano())
+			return
+		}
+	}
+	switch v.Kind() {
+	case reflect.Ptr, reflect.Interface:
+		if v.IsNil() {
+			sb.WriteString("nil")
+			return
+		}
+		sb.WriteString("&")
+		deepWrite(sb, v.Elem(), depth+1)
+	case reflect.Struct:
+		sb.WriteString("{")
+		for i := 0; i < v.NumField(); i++ {
+			sb.WriteString(v.Type().Field(i).Name + ":")
+			deepWrite(sb, v.Field(i), depth+1)
+			sb.WriteString(";")
+		}
+		sb.WriteString("}")
+	case reflect.Slice, reflect.Array:
+		if v.Kind() == reflect.Slice && v.IsNil() {
+			sb.WriteString("nilslice")
+			return
+		}
+		if v.Type().Elem().Kind() == reflect.Uint8 {
+			b := make([]byte, v.Len())
+			for i := range b {
+				b[i] = byte(v.Index(i).Uint())
+			}
+			sb.WriteString("y" + hex.EncodeToString(b))
+			return
+		}
+		sb.WriteString("[")
+		for i := 0; i < v.Len(); i++ {
+			deepWrite(sb, v.Index(i), depth+1)
+			sb.WriteString(",")
+		}
+		sb.WriteString("]")
+	case reflect.Map:
+		if v.IsNil() {
+			sb.WriteString("nilmap")
+			return
+		}
+		var parts []string
+		it := v.MapRange()
+		for it.Next() {
+			var e strings.Builder
+			deepWrite(&e, it.Key(), depth+1)
+			e.WriteString("=>")
+			deepWrite(&e, it.Value(), depth+1)
+			parts = append(parts, e.String())
+		}
+		sort.Strings(parts)
+		sb.WriteString("map[" + strings.Join(parts, ",") + "]")
+	case reflect.Float32, reflect.Float64:
+		fmt.Fprintf(sb, "f%016x", math.Float64bits(v.Float()))
+	case reflect.String:
+		sb.WriteString("s" + hex.EncodeToString([]byte(v.String())))
+	case reflect.Bool:
+		fmt.Fprintf(sb, "%t", v.Bool())
+	case reflect.Int, reflect.Int8, reflect.Int16, reflect.Int32, reflect.Int64:
+		fmt.Fprintf(sb, "%d", v.Int())
+	case reflect.Uint, reflect.Uint8, reflect.Uint16, reflect.Uint32, reflect.Uint64, reflect.Uintptr:
+		fmt.Fprintf(sb, "%d", v.Uint())
+	default:
+		sb.WriteString("<" + v.Kind().String() + ">")
+	}
 }
 
 var c10Oids = []int{16, 17, 18, 19, 20, 21, 23, 25, 26, 27, 28, 29, 114, 142, 600, 601, 602, 603, 604, 628, 650, 700, 701, 718, 774, 790, 829, 869,
@@ -148,9 +280,40 @@ func init() {
 			var m0, m1 runtime.MemStats
 			runtime.ReadMemStats(&m0)
 			t0 := time.Now()
-			f(b, p)
+			r1 := f(b, p)
 			el := time.Since(t0)
 			runtime.ReadMemStats(&m1)
+			// the result must be a function of the len bytes only: run again on a copy whose spare capacity holds
+			// the complemented tail plus 24 further bytes, and on an exact-size copy (cap = len)
+			tl := b[len(b):cap(b)]
+			b2 := make([]byte, 0, len(b)+len(tl)+24)
+			b2 = append(b2, b...)
+			for _, x := range tl {
+				b2 = append(b2, ^x)
+			}
+			for i := 0; i < 24; i++ {
+				b2 = append(b2, byte(0xA5+i))
+			}
+			b2 = b2[:len(b)]
+			b3 := append(make([]byte, 0, len(b)), b...)
+			s1 := deepStr(r1)
+			// a difference counts only when it is reproducible: each buffer gives ONE result over eight more runs and
+			// the two results differ (an operation whose result varies on the same buffer is nondeterministic - that is
+			// property C11's business, and nothing about the tail follows from it)
+			stable := func(x []byte, first string) bool {
+				for i := 0; i < 8; i++ {
+					if deepStr(f(x, p)) != first {
+						return false
+					}
+				}
+				return true
+			}
+			if s2 := deepStr(f(b2, p)); s2 != s1 && stable(b, s1) && stable(b2, s2) {
+				return "result-depends-on-bytes-beyond-len"
+			}
+			if s3 := deepStr(f(b3, p)); s3 != s1 && stable(b, s1) && stable(b3, s3) {
+				return "result-depends-on-capacity"
+			}
 			alloc := m1.TotalAlloc - m0.TotalAlloc
 			// "a small multiple of what the input size warrants": several passes over the input, each allowed to
 			// build text/structures a few dozen times the input, plus a fixed allowance
@@ -183,6 +346,31 @@ func init() {
 			return "ok"
 		}
 		return "page-locality-violated"
+	})
+	// overwriting the payload of ONE stored attribute must leave the decoded value of every other column unchanged
+	// (theorem C10_value_local).  args: null bitmap (hex or "nil"), data area, damaged data area, attribute index
+	register("LocalityValue", func(a []string) string {
+		var bm []byte
+		if a[0] != "nil" {
+			bm = unhex(a[0])
+		}
+		j, _ := strconv.Atoi(a[3])
+		cols := []pgdump.Column{{Name: "a", TypID: 23, Len: 4, Align: 'i'}, {Name: "b", TypID: 25, Len: -1, Align: 'i'},
+			{Name: "c", TypID: 20, Len: 8, Align: 'd'}, {Name: "d", TypID: 25, Len: -1, Align: 'i'}, {Name: "e", TypID: 829, Len: 6, Align: 'i'}}
+		dec := func(data []byte) map[string]interface{} {
+			t := &pgdump.HeapTupleData{Header: &pgdump.HeapTupleHeader{Natts: 5, HasNull: bm != nil, THoff: 24}, Bitmap: bm, Data: data}
+			return pgdump.DecodeTuple(t, cols)
+		}
+		r1, r2 := dec(unhex(a[1])), dec(unhex(a[2]))
+		if r1 == nil || r2 == nil || len(r1) != 5 || len(r2) != 5 {
+			return "row-missing"
+		}
+		for i, c := range cols {
+			if i != j && canon(r1[c.Name]) != canon(r2[c.Name]) {
+				return fmt.Sprintf("value-locality-violated:col-%s", c.Name)
+			}
+		}
+		return "ok"
 	})
 	// replacing the bytes of one tuple must leave every other line pointer's entry unchanged
 	register("LocalityTuple", func(a []string) string {
